@@ -490,6 +490,9 @@ func runC19(args []string) int {
 			break
 		}
 		n := 2 << uint(ti%2)
+		if len(t.Deps) > 0 {
+			n = 4 // the explicit dependency patterns are written for 4 instances
+		}
 		in := make([][]*big.Int, n)
 		for k := range in {
 			in[k] = make([]*big.Int, t.NIn)
